@@ -51,6 +51,9 @@ def S(q):
 # ---------------------------------------------------------------------------------------------
 # building the real object
 
+CLASS_KW = ("g", "c", "d", "f", "minsd", "c_grapa_0", "c_grapa_max", "c_grapa_grow", "rate_error_2")
+
+
 def make_nm(init):
     from shangrla.core.NonnegMean import NonnegMean as NM
     kw = {k: float(F(v)) for k, v in init["kw"].items() if v is not None}
@@ -84,7 +87,21 @@ def make_nm(init):
     # has already been used once, with the parameters it was built with, before u / the keywords were re-assigned.
     # A test is a function of the object's CURRENT attributes; nothing of the earlier configuration may show.
     ctor = {k: float(F(v)) for k, v in (init.get("kw_ctor") or {}).items()}
-    nm = NM(**args, **{**kw, **ctor})
+    cls = NM
+    kw_inst = dict(kw)
+    if init.get("class_kw"):
+        # tuning parameters supplied as CLASS attributes of a subclass (a house style: `class OurTest(NonnegMean): g = 0.1`)
+        # instead of constructor keywords; only those the methods read when they run (the constructor consumes eta / lam)
+        ck = {k: kw_inst.pop(k) for k in list(kw_inst) if k in CLASS_KW and k not in ctor}
+        cls = type("HouseTest", (NM,), ck)
+    nm = cls(**args, **{**kw_inst, **ctor})
+    if init.get("via_copy"):
+        # the object under test is a deep copy of a template that is re-configured afterwards: the copy is independent
+        import copy
+        template, nm = nm, copy.deepcopy(nm)
+        template.t, template.u, template.N = template.t / 2, template.u * 2, 7
+        for k_ in kw:
+            setattr(template, k_, 0.123)
     if init.get("pre_call"):
         try:
             with np.errstate(all="ignore"):
@@ -111,7 +128,7 @@ def xs(case):
     if form in ("list", "tuple"):
         # the sample handed over as a plain Python sequence (alpha_mart / betting_mart / the estimators document
         # "x: list corresponding to the data"): same numbers, another container
-        seq = [v.item() for v in a]
+        seq = [v.item() if hasattr(v, "item") else v for v in a]
         return seq if form == "list" else tuple(seq)
     return a
 
@@ -127,6 +144,15 @@ def _xs_array(case):
     a = np.array([float(v) for v in vals], dtype=float)
     if case.get("negzero"):
         a[a == 0] = -0.0          # IEEE negative zero: equal to 0, inside [0,u]
+    if case.get("series") and len(a) > 1:
+        # the draws as a pandas Series whose integer labels are NOT 0..n-1 in order (a DataFrame column after a shuffle
+        # or a filter): the order of the draws is the order of the rows, whatever their labels
+        import pandas as pd
+        n = len(a)
+        lab = list(range(n))
+        k = (int(7 * a.sum()) % (n - 1)) + 1
+        lab = lab[k:] + lab[:k]
+        return pd.Series(a, index=lab)
     return a
 
 
@@ -170,6 +196,15 @@ def impl(case):
         except Exception:  # noqa
             pass
     if op == "test":
+        if case["init"].get("pre_fail"):
+            # a planning call that raises (pilot data outside [0,u] / longer than the population), caught by the caller:
+            # the object must be what it was
+            for bad in (np.array([-1.0, 0.5]), np.full(3, 2.0 * float(F(case["init"]["u"])) + 1.0)):
+                try:
+                    with np.errstate(all="ignore"):
+                        nm.sample_size(bad, alpha=0.05, reps=None)
+                except Exception:  # noqa
+                    pass
         p, h = nm.test(x)
         res = {"st": "ok", "p": float(p), "hist": flo(h)}
         # the same test object used again, as an audit does round after round: first on a decoy (the same draws in
@@ -609,6 +644,14 @@ def gen_case(rng, tier, op="test", force_test=None, us=None):
     # representations of equal values (see make_nm / xs)
     if rng.chance(0.15):
         init["ro_type"] = rng.choice(["np", "np", "int"])
+    if rng.chance(0.1):
+        init["pre_fail"] = True
+    if rng.chance(0.1):
+        init["via_copy"] = True
+    if rng.chance(0.1) and any(k in CLASS_KW for k in init["kw"]):
+        init["class_kw"] = True
+    if op in ("estim", "bet") and not case.get("int_dtype") and 1 < len(x) <= 60 and rng.chance(0.15):
+        case["series"] = True       # (the test methods index the sample by label; estimators and bets convert it first)
     if N is None and rng.chance(0.2):
         init["inf_type"] = rng.choice(["math", "float"])
     if not case.get("int_dtype") and any(F(v) == 0 for v in x) and rng.chance(0.1):
@@ -1085,6 +1128,8 @@ def rescaled(rng, tier):
             kw["g"] = S(F(kw["g"]) * s_)            # additive padding; kaplan_wald's g is a fraction
         if kw.get("lam") is not None:
             kw["lam"] = S(F(kw["lam"]) / s_)
+        elif test == "betting_mart":
+            kw["lam"] = S(F(1, 2) / s_)          # the default bet 1/2 of the unscaled problem, in the new units
         c["x"] = [S(F(v) * s_) for v in c["x"]]
         c["stream"] = f"scale{'-' if s_ < 1 else '+'}:" + c["stream"]
         return c
@@ -1729,14 +1774,12 @@ def oracle_c10(case, ir):
     p-value of the whole sample"""
     if not valid_for_wellformed(case) or ir.get("st") != "ok" or len(case["x"]) < 2 or not case["init"]["ro"]:
         return None
-    init_ = case["init"]
-    if init_.get("test") == "betting_mart" and init_.get("bet") in (None, "fixed_bet"):
-        # risk_mono_betting holds under the guard of C11 / C13 (C13.BetGuard): a FIXED bet lies in [0, 1/u] for the
-        # test's current upper bound.  The default bet 1/2 with u > 2 (a population in other units, stream `scale+`)
-        # or a bet left behind by a raised `test.u` is outside it: factors, and with them p-values, can be negative
-        u_ = F(init_["u_now"] if init_.get("u_now") is not None else init_["u"])
-        lam_ = F(init_["kw"]["lam"]) if init_["kw"].get("lam") is not None else F(1, 2)
-        if not (0 <= lam_ <= 1 / u_):
+    _i = case["init"]
+    if (_i.get("test") == "betting_mart") and _i.get("bet") in (None, "fixed_bet"):
+        # the guard of C10.risk_mono_betting (and of oracle_c11 / oracle_c13): a fixed bet inside [0, 1/u] for the CURRENT u
+        _u = F(_i["u_now"] if _i.get("u_now") is not None else _i["u"])
+        _lam = F(_i["kw"]["lam"]) if _i["kw"].get("lam") is not None else F(1, 2)
+        if not (0 <= _lam <= 1 / _u):
             return None
     if any(math.isnan(v) for v in ir["hist"]) or math.isnan(ir["p"]):
         return None       # a NaN p-value is C11's to report (known finding F27: overflow, then a factor 0); no order with NaN
